@@ -424,6 +424,9 @@ func basicCases(route string, full bool) []*reqCase {
 	}
 	auth := func(v string) []hdr { return []hdr{{"Authorization", v}} }
 	emit("noheader", "", nil, false)
+	for _, cred := range []string{"mallory:", ":", "", "mallory", " :", "mallory: ", "\x00:", ":\x00"} {
+		emit("unknown-user-empty-password", fmt.Sprintf("%q", cred), auth(basicHeader(cred)), false)
+	}
 	for ui, u := range basicUsers {
 		o := basicUsers[1-ui]
 		un := u.User
